@@ -53,6 +53,8 @@ _raise_on = False
 # sched state
 _sched_on = False
 _sched_p = 0.0
+_sched_plong = 0.0
+long_yields = [0]
 _sched_rng = None
 _sched_lock = threading.Lock()
 _last_tid = None
@@ -142,7 +144,14 @@ def _line(code, line):
                 if len(switch_sig) < 200000:
                     idx = _tid_index.setdefault(tid, len(_tid_index))
                     switch_sig.append((idx, line))
-    if _sched_rng.random() < _sched_p:
+    r = _sched_rng.random()
+    if r < _sched_plong:
+        # a long pause: every other thread runs whole operations while this
+        # one is parked between two statements of the library
+        yields_injected += 1
+        long_yields[0] += 1
+        time.sleep(0.00005 + 0.0004 * _sched_rng.random())
+    elif r < _sched_p:
         yields_injected += 1
         time.sleep(0)
     return None
@@ -180,10 +189,12 @@ def uninstall():
         _installed = False
 
 
-def enable_sched(p, rng):
-    """Switch LINE events to yield-injection mode (re-arms disabled lines)."""
-    global _sched_on, _sched_p, _sched_rng
-    _sched_on, _sched_p, _sched_rng = True, p, rng
+def enable_sched(p, rng, plong=0.0):
+    """Switch LINE events to yield-injection mode (re-arms disabled lines).
+    p = probability of a bare yield (sleep(0)) at a statement boundary inside
+    the library, plong = probability of a 50-450 us pause there."""
+    global _sched_on, _sched_p, _sched_rng, _sched_plong
+    _sched_on, _sched_p, _sched_rng, _sched_plong = True, p, rng, plong
     mon.restart_events()
 
 
